@@ -5,7 +5,8 @@ import AiocoapModel.Blockwise.RefServer
 `C05 R <payload> <szx0> <maxPayload> <hint1> <hint2> <resp>*`
     the client machine against a given response sequence (`runClient`);
     hint1 / hint2 = `-` | `<szx>`: the size exponent of an application-preset Block1 / Block2 option
-    `(0, False, szx)` in the request handed to the API (a Block1 hint is `out-of-model`);
+    `(0, False, szx)` in the request handed to the API;
+    szx0 = 7 is a remote that does BERT (`maximum_block_size_exp` 7);
     resp = `<code>:<block1>:<block2>:<etag>:<payload>`, block = `-` | `<num>.<0|1>.<szx>`,
     etag = `n` (absent) | `e<hex>`; payloads are hex (`-` = empty)
     → `<req>* | <outcome>`, req = `<block1>:<block2>:<size1|->:<payload>`,
@@ -16,7 +17,8 @@ import AiocoapModel.Blockwise.RefServer
 `C05 B <num> <more> <szx> <maxExp> <payloadSize>`
     `BlockOpt`: → `<size> <start> <validFor> <reduced_to as num.m.szx>`
 
-Size exponent 7 (BERT) anywhere is `out-of-model`.
+A size exponent above 7 anywhere is `out-of-model` (it does not fit the option's 3 bits), and so is
+a choice of 7 on an `I` line (the reference server's own exponents are 0..6).
 -/
 namespace Aiocoap.BwClient
 
@@ -49,7 +51,7 @@ def parseHint (s : String) : Option (Option Nat) :=
 
 def hintBad : Option Nat → Bool
   | none => false
-  | some h => h ≥ 7
+  | some h => h ≥ 8
 
 def parseResp (s : String) : Option Resp :=
   match s.splitOn ":" with
@@ -92,7 +94,7 @@ def showOutcome : Outcome → String
 
 def optSzxBad : Option BlockOpt → Bool
   | none => false
-  | some b => b.szx ≥ 7
+  | some b => b.szx ≥ 8
 
 def respBad (r : Resp) : Bool := optSzxBad r.block1 || optSzxBad r.block2
 
@@ -102,8 +104,8 @@ def handle (args : List String) : String :=
     match hexToBytes payload, szx0.toNat?, maxPayload.toNat?, parseHint hint1, parseHint hint2,
           resps.mapM parseResp with
     | some payload, some szx0, some maxPayload, some hint1, some hint2, some resps =>
-      if szx0 ≥ 7 || hint1.isSome || hintBad hint2 || resps.any respBad then "out-of-model" else
-      let res := runClient { payload, szx0, maxPayload, hint2 } resps
+      if szx0 ≥ 8 || hintBad hint1 || hintBad hint2 || resps.any respBad then "out-of-model" else
+      let res := runClient { payload, szx0, maxPayload, hint2, hint1 } resps
       " ".intercalate (res.1.map showReq) ++ " | " ++ showOutcome res.2
     | _, _, _, _, _, _ => "bad-op"
   | "I" :: payload :: szx0 :: maxPayload :: hint1 :: hint2 :: rep :: etag :: code :: choices =>
@@ -111,9 +113,9 @@ def handle (args : List String) : String :=
     | some payload, some szx0, some maxPayload, some hint1, some hint2 =>
     (match hexToBytes rep, parseEtag etag, code.toNat?, choices.mapM parseChoice with
     | some rep, some etag, some code, some choices =>
-      if szx0 ≥ 7 || hint1.isSome || hintBad hint2 || choices.any (fun c => c.szx ≥ 7)
+      if szx0 ≥ 8 || hintBad hint1 || hintBad hint2 || choices.any (fun c => c.szx ≥ 7)
       then "out-of-model" else
-      let run := transfer { payload, szx0, maxPayload, hint2 } (Srv.init rep etag code) choices
+      let run := transfer { payload, szx0, maxPayload, hint2, hint1 } (Srv.init rep etag code) choices
       " ".intercalate (run.reqs.map showReq) ++ " | " ++
       " ".intercalate (run.resps.map showResp) ++ " | " ++ showOutcome run.outcome ++ " | " ++
       (match run.srv.recorded with | none => "n" | some b => "r" ++ (if b.isEmpty then "" else bytesToHex b))
@@ -122,7 +124,7 @@ def handle (args : List String) : String :=
   | ["B", num, more, szx, maxExp, psize] =>
     match num.toNat?, more.toNat?, szx.toNat?, maxExp.toNat?, psize.toNat? with
     | some num, some more, some szx, some maxExp, some psize =>
-      if szx ≥ 7 || maxExp ≥ 7 || more ≥ 2 then "out-of-model" else
+      if szx ≥ 8 || maxExp ≥ 8 || more ≥ 2 then "out-of-model" else
       let b : BlockOpt := { num, more := more == 1, szx }
       s!"{b.size} {b.start} {if b.validFor psize then 1 else 0} {showBlock (some (b.reducedTo maxExp))}"
     | _, _, _, _, _ => "bad-op"
